@@ -354,6 +354,14 @@ def c17(rng, tier):
                 for idx in numpy.ndindex(*shp): cont[idx] = u[idx]
                 w = U.as_utpm(cont)
                 f = None if numpy.array_equal(w.data, xs) else 'as_utpm(container of elements) != original polynomial'
+                # the same container in other memory layouts (transposed view of the transposed container, Fortran order, reversed view): the
+                # element at index idx of the container is the element at index idx of the polynomial, whatever the layout
+                if f is None and len(shp) >= 2:
+                    contT = numpy.empty(shp[::-1], dtype=object).T
+                    for idx in numpy.ndindex(*shp): contT[idx] = u[idx]
+                    for lname, c_ in (('transposed view', contT), ('Fortran order', numpy.asfortranarray(cont)), ('reversed view', cont[::-1][::-1]), ('swapaxes twice', numpy.swapaxes(numpy.swapaxes(cont, 0, 1).copy(), 0, 1))):
+                        w_ = U.as_utpm(c_)
+                        if w_.data.shape != xs.shape or not numpy.array_equal(w_.data, xs): f = 'as_utpm(container in %s layout) != original polynomial' % lname; break
                 if f is None:
                     lst = [u[i] for i in range(shp[0])]
                     w2 = U.as_utpm(lst)
